@@ -149,8 +149,14 @@ pub fn match_product(cfg: &Cfg, m: &Menu, thorough: bool) -> Vec<Act> {
             senders.push(r.get(o));
         }
     }
+    // (other senders on the whole product was measured at 8.5e9 transitions / 49 min for the
+    // thorough tier: the sender dimension is independent of the other conditions, so it is
+    // crossed with the L-shaped requests only — plus, in the thorough tier, every size)
     let base: Vec<Act> = if thorough {
-        v.clone()
+        v.iter()
+            .filter(|a| matches!(&a.req, Req::Match{price, ask_id, bid_id, ..} if m.prices.contains(&price.as_str()) && ask_id != ID_UNUSED && bid_id != ID_UNUSED))
+            .cloned()
+            .collect()
     } else {
         v.iter()
             .filter(|a| matches!(&a.req, Req::Match{price, size, ask_id, bid_id} if m.prices.contains(&price.as_str()) && m.match_sizes.contains(size) && ask_id != ID_UNUSED && bid_id != ID_UNUSED))
